@@ -109,7 +109,8 @@ def _get_file_parts(value: FileName, relative_to: str = '') -> tuple[str, str, s
         path = os.path.relpath(path, relative_to)
 
     # Strip '/' off the end, and './' from the beginning.
-    path = os.path.normpath(path).replace('\\', '/').rstrip('/')
+    # Swap backslashes first, so they are normalised as separators on every platform.
+    path = os.path.normpath(path.replace('\\', '/')).replace('\\', '/').rstrip('/')
 
     # Special case - empty path gets returned as '.'...
     if path == '.':
